@@ -48,15 +48,15 @@ type impl struct {
 
 // Adapter describes one (implementation, geometry) pair.
 type Adapter struct {
-	Impl   string
-	Geo    Geometry
-	Mode   string // "session" | "lease"
-	Grace  int
-	Usable []int
-	Ops    []string
+	Impl    string
+	Geo     Geometry
+	Mode    string // "session" | "lease"
+	Grace   int
+	Usable  []int
+	Ops     []string
 	NoDrain bool
-	mk     func() *impl
-	subID  func(i int) string
+	mk      func() *impl
+	subID   func(i int) string
 }
 
 func (a Adapter) Name() string { return a.Impl + "/" + a.Geo.Name + fmt.Sprintf("/g%d", a.Grace) }
